@@ -223,6 +223,7 @@ def generate(unit, repo, vacuity=False, falsify=False):
             out = '/*@FN:%s*/\n%s%s\n' % (key, pre, text)
         else:
             text, r = A.n7_use(text); norms += r
+            text, r = A.n21_rename_has(text); norms += r
             if spec.mut_self:
                 text, r = A.n3_receiver(text); norms += r
             for p in spec.mut_params:
